@@ -34,7 +34,7 @@ func init() {
 					}
 				}
 			}
-			for _, c := range []string{"with_variables", "with_if", "with_dne", "res_dne", "kleene_checked", "plain_checked", "option_reused_after_map_change"} {
+			for _, c := range []string{"with_variables", "with_if", "with_dne", "res_dne", "kleene_checked", "plain_checked", "option_reused_after_map_change", "variables_in_two_maps"} {
 				if m.C(c) == 0 {
 					u = append(u, c+" = 0")
 				}
@@ -115,7 +115,30 @@ func c20Run(w *W, idx int) {
 		opts = append(opts, eval.EnableTryEval)
 	}
 	// map iteration order inside GenVariables is random: sort-independent oracle, same seed
-	opts = append(opts, eval.GenVariables(vals))
+	if idx%4 == 1 && idx%5 != 2 && len(vals) > 3 { // (not together with the in-place update below, which works on vals)
+		// the variables arrive in two maps (two GenVariables options), both holding numbers
+		part := map[string]interface{}{}
+		names := make([]string, 0, len(vals))
+		for k := range vals {
+			names = append(names, k)
+		}
+		sort.Strings(names)
+		for _, k := range names {
+			if _, isBool := vals[k].(bool); !isBool && r.Intn(2) == 0 {
+				part[k] = vals[k]
+			}
+		}
+		rest := map[string]interface{}{}
+		for k, v := range vals {
+			if _, moved := part[k]; !moved {
+				rest[k] = v
+			}
+		}
+		opts = append(opts, eval.GenVariables(rest), eval.GenVariables(part))
+		w.Inc("variables_in_two_maps")
+	} else {
+		opts = append(opts, eval.GenVariables(vals))
+	}
 	if len(dne) > 0 {
 		opts = append(opts, eval.GenVariables(dne))
 	}
